@@ -23,7 +23,8 @@ Inductive p1_outcome (s : system) (ivs : list ivar) (e : ieq) (ivs' : list ivar)
     filter (nk ivs) (ie_vars e) ++ filter (ni ivs) (ie_odes e) = [p] -> on_lhs_or_rhs s e (geti ivs p) = true ->
     p < length ivs ->
     b = true -> ie_type e' <> EUnknown -> ie_unknown e' = ie_unknown e ++ [p] ->
-    ivs' = upd ivs p v3 -> has_index v3 = true -> iv_type v3 <> VUnknown ->
+    ivs' = upd ivs p v3 -> has_index v3 = true ->
+    ((iv_type (geti ivs p) = VUnknown /\ comp_type (iv_type v3) = true) \/ (iv_type (geti ivs p) <> VUnknown /\ iv_type v3 = iv_type (geti ivs p))) ->
     (iv_type (geti ivs p) = VUnknown \/
      (In p (ie_odes e) /\ (iv_type (geti ivs p) = VState \/ comp_type (iv_type (geti ivs p)) = true \/ iv_type (geti ivs p) = VInitAlgebraic))) ->
     p1_outcome s ivs e ivs' e' b
@@ -105,8 +106,8 @@ Proof.
       match goal with |- (if ?c then _ else _) <> _ => destruct c end; [discriminate|].
       match goal with |- match ?t with _ => _ end <> _ => destruct t end; discriminate.
     + cbn [set_index iv_type]. rewrite Hv2ty. destruct (vtype_eqb (iv_type (geti ivs p)) VUnknown) eqn:Eu.
-      * destruct tc; [discriminate|]. destruct vc; discriminate.
-      * intro K. rewrite K in Eu. discriminate.
+      * left. split; [apply vtype_eqb_eq; exact Eu|]. destruct tc; [reflexivity|]. destruct vc; reflexivity.
+      * right. split; [|reflexivity]. intro K. rewrite K in Eu. discriminate.
     + (* what was typed was unknown, or a state *)
       destruct (vtype_eqb (iv_type (geti ivs p)) VUnknown) eqn:Eu; [left; apply vtype_eqb_eq; exact Eu|right].
       rewrite Hv2ty in Hv2.
@@ -124,4 +125,613 @@ Proof.
     + unfold v2. apply retarget_index.
     + intro K. rewrite Hv2ty, K in N2. cbn in N2. destruct tc; [discriminate|]. destruct vc; discriminate.
     + intro K. apply N1. rewrite Hsame. exact K.
+Qed.
+
+(* ------------------------------------------------------------------ how a variable may have changed since the pass began *)
+
+Definition pend (v : ivar) : bool :=
+  match iv_type v with VUnknown => true | VState => negb (has_index v) | _ => false end.
+
+Definition vrel (v0 v : ivar) : Prop :=
+  v = v0
+  \/ (pend v0 = true /\ has_index v = true /\
+      ((iv_type v0 = VUnknown /\ comp_type (iv_type v) = true) \/ (iv_type v0 = VState /\ iv_type v = VState)))
+  \/ (pend v0 = false /\ iv_type v = iv_type v0 /\ iv_index v = iv_index v0).
+
+Definition grows (ivs0 ivs : list ivar) : Prop :=
+  length ivs = length ivs0 /\ forall p, p < length ivs0 -> vrel (geti ivs0 p) (geti ivs p).
+
+Lemma vrel_pend : forall v0 v, vrel v0 v -> pend v = true -> v = v0.
+Proof.
+  intros v0 v [H|[(P & I & T)|(P & T & I)]] Hp; [exact H| |].
+  - exfalso. unfold pend in Hp. destruct T as [(_ & T)|(_ & T)].
+    + destruct (iv_type v); cbn in T; discriminate.
+    + rewrite T, I in Hp. discriminate.
+  - exfalso. unfold pend, has_index in *. rewrite T, I in Hp. rewrite Hp in P. discriminate.
+Qed.
+
+Lemma vrel_known : forall v0 v, vrel v0 v -> iv_type v0 <> VUnknown -> iv_type v <> VUnknown.
+Proof.
+  intros v0 v [->|[(P & I & T)|(P & T & I)]] H; [exact H| |congruence].
+  destruct T as [(T & _)|(_ & T)]; [contradiction|rewrite T; discriminate].
+Qed.
+
+Lemma vrel_index : forall v0 v, vrel v0 v -> has_index v0 = true -> has_index v = true.
+Proof.
+  intros v0 v [->|[(P & I & T)|(P & T & I)]] H; [exact H|exact I|]. unfold has_index in *. rewrite I. exact H.
+Qed.
+
+Lemma vrel_typed_indexed : forall v0 v, vrel v0 v -> iv_type v0 = VUnknown -> iv_type v <> VUnknown -> has_index v = true.
+Proof.
+  intros v0 v [->|[(P & I & T)|(P & T & I)]] H0 H; [contradiction|exact I|congruence].
+Qed.
+
+Lemma vrel_ode : forall v0 v, vrel v0 v -> ode_type (iv_type v0) = true -> ode_type (iv_type v) = true.
+Proof.
+  intros v0 v [->|[(P & I & T)|(P & T & I)]] H; [exact H| |rewrite T; exact H].
+  destruct T as [(T & _)|(_ & T)]; [rewrite T in H; discriminate|rewrite T; reflexivity].
+Qed.
+
+Lemma is_known_type : forall ivs p, is_known ivs p = true <-> iv_type (geti ivs p) <> VUnknown.
+Proof.
+  intros. unfold is_known. rewrite negb_true_iff. split.
+  - intros H K. rewrite K in H. discriminate.
+  - intro H. destruct (vtype_eqb (iv_type (geti ivs p)) VUnknown) eqn:E; [|reflexivity]. apply vtype_eqb_eq in E. contradiction.
+Qed.
+
+(* the knowledge of the pass only grows *)
+Definition kmono (ivs ivs' : list ivar) : Prop :=
+  forall x, (is_known ivs x = true -> is_known ivs' x = true) /\ (has_index (geti ivs x) = true -> has_index (geti ivs' x) = true).
+
+(* same knowledge, pending variables untouched *)
+Definition same_kip (ivs ivs' : list ivar) : Prop :=
+  forall x, is_known ivs' x = is_known ivs x /\ has_index (geti ivs' x) = has_index (geti ivs x) /\
+            (pend (geti ivs x) = true \/ pend (geti ivs' x) = true -> geti ivs' x = geti ivs x).
+
+Lemma same_kip_refl : forall a, same_kip a a.
+Proof. intros a x. auto. Qed.
+Lemma same_kip_trans : forall a b c, same_kip a b -> same_kip b c -> same_kip a c.
+Proof.
+  intros a b c H1 H2 x. destruct (H1 x) as (A1 & A2 & A3). destruct (H2 x) as (B1 & B2 & B3).
+  split; [congruence|]. split; [congruence|]. intros [K|K].
+  - rewrite <- (A3 (or_introl K)). apply B3. left. rewrite (A3 (or_introl K)). exact K.
+  - assert (Kb : geti c x = geti b x) by (apply B3; right; exact K).
+    rewrite Kb. apply A3. right. rewrite <- Kb. exact K.
+Qed.
+Lemma same_kip_kmono : forall a b, same_kip a b -> kmono a b.
+Proof. intros a b H x. destruct (H x) as (A1 & A2 & _). rewrite A1, A2. auto. Qed.
+
+Lemma kmono_refl : forall a, kmono a a.
+Proof. intros a x. auto. Qed.
+Lemma kmono_trans : forall a b c, kmono a b -> kmono b c -> kmono a c.
+Proof. intros a b c H1 H2 x. destruct (H1 x), (H2 x). auto. Qed.
+
+(* every ODE variable of the original equations has the type of a (possibly uninitialised) state *)
+Definition ode_ok (ivs : list ivar) (e0 : ieq) : Prop := forall p, In p (ie_odes e0) -> ode_type (iv_type (geti ivs p)) = true.
+
+Lemma pend_left : forall ivs e0 p, ode_ok ivs e0 -> In p (filter (nk ivs) (ie_vars e0) ++ filter (ni ivs) (ie_odes e0)) ->
+  pend (geti ivs p) = true \/ (iv_type (geti ivs p) <> VUnknown /\ iv_type (geti ivs p) <> VState).
+Proof.
+  intros ivs e0 p Ho Hin. apply in_app_iff in Hin. destruct Hin as [Hin|Hin]; apply filter_In in Hin; destruct Hin as (Hin & Hk).
+  - left. unfold nk, is_known in Hk. rewrite negb_involutive in Hk. apply vtype_eqb_eq in Hk. unfold pend. rewrite Hk. reflexivity.
+  - unfold ni in Hk. rewrite is_known_ode_has_index in Hk. specialize (Ho p Hin).
+    unfold pend. destruct (iv_type (geti ivs p)); cbn in Ho; try discriminate.
+    + right. split; discriminate.
+    + right. split; discriminate.
+    + left. exact Hk.
+    + right. split; discriminate.
+Qed.
+
+(* one call of check in the first pass, seen from the beginning of the pass *)
+Lemma p1_step : forall s ivs0 ivs e ivs' e' b,
+  p1_outcome s ivs e ivs' e' b -> grows ivs0 ivs -> (forall p, In p (ie_odes e) -> ode_type (iv_type (geti ivs p)) = true) ->
+  grows ivs0 ivs' /\ kmono ivs ivs' /\ (b = false -> same_kip ivs ivs').
+Proof.
+  intros s ivs0 ivs e ivs' e' b H (L & G) Ho. destruct H.
+  - subst. split; [split; assumption|]. split; [apply kmono_refl|]. intros _. apply same_kip_refl.
+  - (* fired *)
+    subst ivs'. rename H1 into Hp.
+    assert (Hpend : pend (geti ivs p) = true).
+    { destruct H8 as [Hu|(Hin & Ht)]; [unfold pend; rewrite Hu; reflexivity|].
+      assert (Hleft : In p (filter (nk ivs) (ie_vars e) ++ filter (ni ivs) (ie_odes e))) by (rewrite H; left; reflexivity).
+      apply in_app_iff in Hleft. destruct Hleft as [Hl|Hl]; apply filter_In in Hl; destruct Hl as (Hl1 & Hl2).
+      - unfold nk, is_known in Hl2. rewrite negb_involutive in Hl2. apply vtype_eqb_eq in Hl2. unfold pend. rewrite Hl2. reflexivity.
+      - specialize (Ho p Hin). unfold ni in Hl2. rewrite is_known_ode_has_index in Hl2. unfold pend.
+        destruct (iv_type (geti ivs p)); cbn in Ho; try discriminate; destruct Ht as [K|[K|K]]; try discriminate. exact Hl2. }
+    assert (Hp0 : p < length ivs0) by (rewrite <- L; exact Hp).
+    assert (Heq : geti ivs p = geti ivs0 p) by (apply vrel_pend; [apply G; exact Hp0|exact Hpend]).
+    split; [split|split].
+    + rewrite upd_length. exact L.
+    + intros q Hq. unfold geti at 2. destruct (Nat.eq_dec p q) as [<-|Hd].
+      * rewrite nth_upd_same by exact Hp. right. left. rewrite <- Heq. split; [exact Hpend|]. split; [exact H6|].
+        destruct H7 as [(T1 & T2)|(T1 & T2)]; [left; split; assumption|right].
+        unfold pend in Hpend. destruct (iv_type (geti ivs p)) eqn:Et; try discriminate; [contradiction|]. split; [reflexivity|exact T2].
+      * rewrite nth_upd_other by exact Hd. apply G. exact Hq.
+    + intro x. destruct (Nat.eq_dec p x) as [<-|Hd].
+      * assert (Hg : geti (upd ivs p v3) p = v3) by (apply geti_upd_same; exact Hp). split; intros _.
+        -- apply is_known_type. rewrite Hg. destruct H7 as [(_ & T)|(T1 & T2)].
+           ++ destruct (iv_type v3); cbn in T; try discriminate; discriminate.
+           ++ rewrite T2. exact T1.
+        -- rewrite Hg. exact H6.
+      * assert (Hg : geti (upd ivs p v3) x = geti ivs x) by (unfold geti; apply nth_upd_other; exact Hd).
+        unfold is_known. rewrite Hg. auto.
+    + intro K. congruence.
+  - (* abandoned *)
+    subst ivs'. rename H1 into Hp.
+    assert (Hnp : pend (geti ivs p) = false).
+    { unfold pend. destruct (iv_type (geti ivs p)); try reflexivity; contradiction. }
+    assert (Hnp2 : pend v2 = false).
+    { unfold pend, has_index in *. rewrite H6, H7. exact Hnp. }
+    assert (Hp0 : p < length ivs0) by (rewrite <- L; exact Hp).
+    assert (Hsk : same_kip ivs (upd ivs p v2)).
+    { intro x. destruct (Nat.eq_dec p x) as [<-|Hd].
+      - assert (Hg : geti (upd ivs p v2) p = v2) by (apply geti_upd_same; exact Hp).
+        unfold is_known. rewrite Hg, H6. unfold has_index. rewrite H7.
+        split; [reflexivity|]. split; [reflexivity|]. intros [K|K]; congruence.
+      - assert (Hg : geti (upd ivs p v2) x = geti ivs x) by (unfold geti; apply nth_upd_other; exact Hd).
+        unfold is_known. rewrite Hg. auto. }
+    split; [split|split].
+    + rewrite upd_length. exact L.
+    + intros q Hq. unfold geti at 2. destruct (Nat.eq_dec p q) as [<-|Hd].
+      * rewrite nth_upd_same by exact Hp.
+        destruct (G p Hq) as [E|[(P & I & T)|(P & T & I)]].
+        -- right. right. rewrite <- E. split; [exact Hnp|]. split; assumption.
+        -- (* a typed variable is not left in any equation *)
+           exfalso. assert (Hleft : In p (filter (nk ivs) (ie_vars e) ++ filter (ni ivs) (ie_odes e))) by (rewrite H; left; reflexivity).
+           apply in_app_iff in Hleft. destruct Hleft as [Hl|Hl]; apply filter_In in Hl; destruct Hl as (_ & Hl2).
+           ++ unfold nk, is_known in Hl2. rewrite negb_involutive in Hl2. apply vtype_eqb_eq in Hl2. contradiction.
+           ++ unfold ni in Hl2. rewrite is_known_ode_has_index, I in Hl2. discriminate.
+        -- right. right. split; [exact P|]. split; congruence.
+      * rewrite nth_upd_other by exact Hd. apply G. exact Hq.
+    + apply same_kip_kmono. exact Hsk.
+    + intros _. exact Hsk.
+Qed.
+
+(* ------------------------------------------------------------------ an equation and its original *)
+
+Definition done_eq (ivs : list ivar) (e0 : ieq) : Prop :=
+  (forall p, In p (ie_vars e0) -> is_known ivs p = true) /\ (forall p, In p (ie_odes e0) -> has_index (geti ivs p) = true).
+
+Definition tracks (ivs : list ivar) (e0 e : ieq) : Prop :=
+  ie_lhs e = ie_lhs e0 /\ ie_rhs e = ie_rhs e0 /\
+  filter (nk ivs) (ie_vars e) = filter (nk ivs) (ie_vars e0) /\
+  filter (ni ivs) (ie_odes e) = filter (ni ivs) (ie_odes e0) /\
+  incl (ie_odes e) (ie_odes e0) /\
+  (ie_type e <> EUnknown -> done_eq ivs e0).
+
+Lemma filter_filter_mono : forall {A} (f g : A -> bool) l, (forall x, f x = true -> g x = true) -> filter f (filter g l) = filter f l.
+Proof.
+  intros A f g l H. induction l as [|x r IH]; cbn; [reflexivity|].
+  destruct (g x) eqn:Eg; cbn.
+  - destruct (f x); rewrite IH; reflexivity.
+  - destruct (f x) eqn:Ef; [rewrite (H x Ef) in Eg; discriminate|exact IH].
+Qed.
+
+Lemma nk_mono : forall a b x, kmono a b -> nk b x = true -> nk a x = true.
+Proof.
+  intros a b x H K. unfold nk in *. apply negb_true_iff in K. apply negb_true_iff.
+  destruct (is_known a x) eqn:E; [|reflexivity]. rewrite (proj1 (H x) E) in K. discriminate.
+Qed.
+Lemma ni_mono : forall a b x, kmono a b -> ni b x = true -> ni a x = true.
+Proof.
+  intros a b x H K. unfold ni in *. rewrite is_known_ode_has_index in *. apply negb_true_iff in K. apply negb_true_iff.
+  destruct (has_index (geti a x)) eqn:E; [|reflexivity]. rewrite (proj2 (H x) E) in K. discriminate.
+Qed.
+
+Lemma filter_eq_mono : forall (f g : nat -> bool) l l', (forall x, f x = true -> g x = true) -> filter g l = filter g l' -> filter f l = filter f l'.
+Proof. intros f g l l' H E. rewrite <- (filter_filter_mono f g l H), <- (filter_filter_mono f g l' H), E. reflexivity. Qed.
+
+Lemma done_mono : forall a b e0, kmono a b -> done_eq a e0 -> done_eq b e0.
+Proof. intros a b e0 H (D1 & D2). split; intros p Hp; [apply (proj1 (H p)); apply D1|apply (proj2 (H p)); apply D2]; exact Hp. Qed.
+
+Lemma tracks_mono : forall a b e0 e, kmono a b -> tracks a e0 e -> tracks b e0 e.
+Proof.
+  intros a b e0 e H (T1 & T2 & T3 & T4 & T5 & T6). unfold tracks.
+  split; [exact T1|]. split; [exact T2|].
+  split; [eapply filter_eq_mono; [|exact T3]; intros x; apply nk_mono; exact H|].
+  split; [eapply filter_eq_mono; [|exact T4]; intros x; apply ni_mono; exact H|].
+  split; [exact T5|]. intro K. eapply done_mono; [exact H|apply T6; exact K].
+Qed.
+
+Lemma tracks_self : forall ivs e, ie_type e = EUnknown -> tracks ivs e e.
+Proof. intros ivs e H. unfold tracks. repeat split; try reflexivity; try (intros x Hx; exact Hx). all: intro K; contradiction. Qed.
+
+(* the original equation could fire for p *)
+Definition fireable (s : system) (ivs : list ivar) (e0 : ieq) (p : nat) : Prop :=
+  filter (nk ivs) (ie_vars e0) ++ filter (ni ivs) (ie_odes e0) = [p] /\
+  on_lhs_or_rhs s e0 (geti ivs p) = true /\ pend (geti ivs p) = true.
+
+Lemma filter_ext_in : forall (f g : nat -> bool) l, (forall x, f x = g x) -> filter f l = filter g l.
+Proof. intros f g l H. induction l as [|x r IH]; cbn; [reflexivity|]. rewrite H, IH. reflexivity. Qed.
+
+Lemma fireable_same_kip : forall s a b e0 p, same_kip a b -> fireable s a e0 p -> fireable s b e0 p.
+Proof.
+  intros s a b e0 p H (F1 & F2 & F3). unfold fireable.
+  assert (Hnk : forall x, nk b x = nk a x) by (intro x; unfold nk; rewrite (proj1 (H x)); reflexivity).
+  assert (Hni : forall x, ni b x = ni a x) by (intro x; unfold ni; rewrite !is_known_ode_has_index, (proj1 (proj2 (H x))); reflexivity).
+  rewrite (filter_ext_in _ _ _ Hnk), (filter_ext_in _ _ _ Hni).
+  assert (Hg : geti b p = geti a p) by (apply (proj2 (proj2 (H p))); left; exact F3).
+  rewrite Hg. auto.
+Qed.
+
+Lemma same_kip_sym : forall a b, same_kip a b -> same_kip b a.
+Proof.
+  intros a b H x. destruct (H x) as (A1 & A2 & A3). split; [congruence|]. split; [congruence|].
+  intros [K|K]; symmetry; apply A3; [right|left]; exact K.
+Qed.
+
+(* what one call of check says about the firability of the original equation *)
+Lemma p1_fireable : forall s ivs e0 e ivs' e' b,
+  p1_outcome s ivs e ivs' e' b -> tracks ivs e0 e -> ode_ok ivs e0 ->
+  (b = false -> forall p, ~ fireable s ivs e0 p) /\
+  (b = true -> exists p, fireable s ivs e0 p /\ ivs' = upd ivs p (geti ivs' p) /\ p < length ivs /\
+                         is_known ivs' p = true /\ has_index (geti ivs' p) = true).
+Proof.
+  intros s ivs e0 e ivs' e' b H (T1 & T2 & T3 & T4 & T5 & T6) Ho.
+  assert (Hside : forall v, on_lhs_or_rhs s e v = on_lhs_or_rhs s e0 v) by (intro v; apply on_lhs_or_rhs_sides; assumption).
+  destruct H.
+  - split; [|intro K; congruence]. intros _ p (F1 & F2 & F3). apply (H3 p). rewrite T3, T4, Hside. auto.
+  - split; [intro K; congruence|]. intros _. exists p.
+    assert (Hg : geti ivs' p = v3) by (subst ivs'; apply geti_upd_same; assumption).
+    split; [|split; [rewrite Hg; assumption|split; [assumption|split]]].
+    + unfold fireable. rewrite <- T3, <- T4, <- Hside. split; [assumption|]. split; [assumption|].
+      destruct (pend_left ivs e0 p Ho) as [K|(K1 & K2)]; [rewrite <- T3, <- T4, H; left; reflexivity|exact K|].
+      exfalso. destruct H8 as [K|(Hin & [K|[K|K]])]; try contradiction.
+      * specialize (Ho p (T5 p Hin)). destruct (iv_type (geti ivs p)); cbn in K, Ho; discriminate.
+      * specialize (Ho p (T5 p Hin)). rewrite K in Ho. discriminate.
+    + apply is_known_type. rewrite Hg. destruct H7 as [(_ & T)|(Tn & T)].
+      * destruct (iv_type v3); cbn in T; try discriminate; discriminate.
+      * rewrite T. exact Tn.
+    + rewrite Hg. assumption.
+  - split; [|intro K; congruence]. intros _ q (F1 & F2 & F3).
+    rewrite <- T3, <- T4, H in F1. inversion F1; subst q.
+    unfold pend in F3. destruct (iv_type (geti ivs p)); try discriminate; contradiction.
+Qed.
+
+Lemma p1_tracks : forall s ivs e0 e ivs' e' b st st',
+  check s false st e = (st', e', b) -> cs_ivs st = ivs -> cs_ivs st' = ivs' ->
+  ie_type e = EUnknown -> eq_inv ivs e -> tracks ivs e0 e -> kmono ivs ivs' ->
+  (b = true -> exists p, filter (nk ivs) (ie_vars e) ++ filter (ni ivs) (ie_odes e) = [p] /\ is_known ivs' p = true /\ has_index (geti ivs' p) = true) ->
+  tracks ivs' e0 e'.
+Proof.
+  intros s ivs e0 e ivs' e' b st st' Hc <- <- Hty Hinv (T1 & T2 & T3 & T4 & T5 & T6) Hk Hfire.
+  destruct (check_p1 _ _ _ _ _ _ Hc Hty Hinv) as (C1 & C2 & _ & C4 & C5 & Hout).
+  unfold tracks. split; [congruence|]. split; [congruence|].
+  assert (Hv : filter (nk (cs_ivs st')) (ie_vars e') = filter (nk (cs_ivs st')) (ie_vars e0)).
+  { rewrite C4. rewrite (filter_filter_mono _ _ (ie_vars e)) by (intro x; apply nk_mono; exact Hk).
+    eapply filter_eq_mono; [|exact T3]. intro x. apply nk_mono. exact Hk. }
+  assert (Ho : filter (ni (cs_ivs st')) (ie_odes e') = filter (ni (cs_ivs st')) (ie_odes e0)).
+  { rewrite C5. rewrite (filter_filter_mono _ _ (ie_odes e)) by (intro x; apply ni_mono; exact Hk).
+    eapply filter_eq_mono; [|exact T4]. intro x. apply ni_mono. exact Hk. }
+  split; [exact Hv|]. split; [exact Ho|].
+  split; [rewrite C5; intros x Hx; apply T5; apply filter_In in Hx; apply Hx|].
+  intro Hty'. destruct b.
+  - destruct (Hfire eq_refl) as (p & Hl & Hkn & Hix). rewrite T3, T4 in Hl.
+    split; intros x Hx.
+    + destruct (nk (cs_ivs st) x) eqn:E.
+      * assert (Hin : In x (filter (nk (cs_ivs st)) (ie_vars e0) ++ filter (ni (cs_ivs st)) (ie_odes e0))).
+        { apply in_app_iff. left. apply filter_In. split; assumption. }
+        rewrite Hl in Hin. destruct Hin as [<-|[]]. exact Hkn.
+      * apply (proj1 (Hk x)). unfold nk in E. apply negb_false_iff in E. exact E.
+    + destruct (ni (cs_ivs st) x) eqn:E.
+      * assert (Hin : In x (filter (nk (cs_ivs st)) (ie_vars e0) ++ filter (ni (cs_ivs st)) (ie_odes e0))).
+        { apply in_app_iff. right. apply filter_In. split; assumption. }
+        rewrite Hl in Hin. destruct Hin as [<-|[]]. exact Hix.
+      * apply (proj2 (Hk x)). unfold ni in E. rewrite is_known_ode_has_index in E. apply negb_false_iff in E. exact E.
+  - exfalso. destruct Hout; try congruence.
+Qed.
+
+(* ------------------------------------------------------------------ a run of the first pass *)
+
+Definition bounded (n : nat) (e0 : ieq) : Prop :=
+  Forall (fun p => p < n) (ie_vars e0) /\ Forall (fun p => p < n) (ie_odes e0).
+
+Lemma ode_ok_grows : forall ivs0 ivs e0, grows ivs0 ivs -> bounded (length ivs0) e0 -> ode_ok ivs0 e0 -> ode_ok ivs e0.
+Proof.
+  intros ivs0 ivs e0 (L & G) (_ & B) Ho p Hp. rewrite Forall_forall in B.
+  eapply vrel_ode; [apply G; apply B; exact Hp|apply Ho; exact Hp].
+Qed.
+
+Lemma check_run : forall s ivs0 st e0 e st' e' b,
+  check s false st e = (st', e', b) ->
+  grows ivs0 (cs_ivs st) -> tracks (cs_ivs st) e0 e -> ode_ok ivs0 e0 -> bounded (length ivs0) e0 -> eq_inv (cs_ivs st) e ->
+  grows ivs0 (cs_ivs st') /\ kmono (cs_ivs st) (cs_ivs st') /\ tracks (cs_ivs st') e0 e' /\
+  (b = false -> same_kip (cs_ivs st) (cs_ivs st') /\ (ie_type e' = EUnknown -> forall p, ~ fireable s (cs_ivs st') e0 p)) /\
+  (b = true -> exists p, fireable s (cs_ivs st) e0 p /\ p < length (cs_ivs st) /\
+                         (forall q, q <> p -> geti (cs_ivs st') q = geti (cs_ivs st) q) /\
+                         is_known (cs_ivs st') p = true /\ has_index (geti (cs_ivs st') p) = true).
+Proof.
+  intros s ivs0 st e0 e st' e' b Hc Hg Ht Ho Hb Hinv.
+  destruct (etype_eqb (ie_type e) EUnknown) eqn:Et.
+  2:{ unfold check in Hc. rewrite Et in Hc. cbn [negb] in Hc. inversion Hc; subst.
+      split; [exact Hg|]. split; [apply kmono_refl|]. split; [exact Ht|]. split; [|intro K; discriminate].
+      intros _. split; [apply same_kip_refl|]. intro K. rewrite K in Et. discriminate. }
+  apply etype_eqb_eq in Et.
+  destruct (check_p1 _ _ _ _ _ _ Hc Et Hinv) as (_ & _ & _ & _ & _ & Hout).
+  pose proof (ode_ok_grows _ _ _ Hg Hb Ho) as Ho1.
+  assert (Hoe : forall p, In p (ie_odes e) -> ode_type (iv_type (geti (cs_ivs st) p)) = true).
+  { intros p Hp. apply Ho1. destruct Ht as (_ & _ & _ & _ & T5 & _). apply T5. exact Hp. }
+  destruct (p1_step _ _ _ _ _ _ _ Hout Hg Hoe) as (G' & K' & S').
+  destruct (p1_fireable _ _ _ _ _ _ _ Hout Ht Ho1) as (F1 & F2).
+  assert (Ht' : tracks (cs_ivs st') e0 e').
+  { eapply p1_tracks; try eassumption; try reflexivity.
+    intro Hbt. destruct (F2 Hbt) as (p & (Fl & _) & _ & _ & Hk & Hi). exists p.
+    destruct Ht as (_ & _ & T3 & T4 & _). rewrite T3, T4. split; [exact Fl|]. split; assumption. }
+  split; [exact G'|]. split; [exact K'|]. split; [exact Ht'|]. split.
+  - intro Hbf. specialize (S' Hbf). split; [exact S'|]. intros _ p Hf.
+    apply (F1 Hbf p). eapply fireable_same_kip; [apply same_kip_sym; exact S'|exact Hf].
+  - intro Hbt. destruct (F2 Hbt) as (p & Hf & Hupd & Hp & Hk & Hi). exists p.
+    split; [exact Hf|]. split; [exact Hp|]. split; [|split; assumption].
+    intros q Hq. rewrite Hupd. unfold geti. apply nth_upd_other. congruence.
+Qed.
+
+Lemma Forall2_tracks_mono : forall a b E es, kmono a b -> Forall2 (tracks a) E es -> Forall2 (tracks b) E es.
+Proof. intros a b E es H F. induction F; constructor; [eapply tracks_mono; eassumption|assumption]. Qed.
+
+Definition stuck_pair (s : system) (ivs : list ivar) (e0 e : ieq) : Prop :=
+  ie_type e = EUnknown -> forall p, ~ fireable s ivs e0 p.
+
+Lemma sweep_run : forall s ivs0 E es st st' es' b,
+  sweep s false st es = (st', es', b) ->
+  grows ivs0 (cs_ivs st) -> Forall2 (tracks (cs_ivs st)) E es ->
+  Forall (ode_ok ivs0) E -> Forall (bounded (length ivs0)) E -> Forall (eq_inv (cs_ivs st)) es ->
+  grows ivs0 (cs_ivs st') /\ kmono (cs_ivs st) (cs_ivs st') /\ Forall2 (tracks (cs_ivs st')) E es' /\
+  (b = false -> same_kip (cs_ivs st) (cs_ivs st') /\ Forall2 (stuck_pair s (cs_ivs st')) E es').
+Proof.
+  intros s ivs0 E es. revert E. induction es as [|e r IH]; intros E st st' es' b H Hg Ht Ho Hb Hinv; cbn in H.
+  - inversion H; subst. inversion Ht; subst. split; [exact Hg|]. split; [apply kmono_refl|]. split; [constructor|].
+    intros _. split; [apply same_kip_refl|constructor].
+  - destruct (check s false st e) as [[st1 e1] b1] eqn:Hc.
+    destruct (sweep s false st1 r) as [[st2 r1] b2] eqn:Hs.
+    inversion H; subst st' es' b. clear H.
+    inversion Ht as [|e0 ? E' ? Hte Htr]; subst. inversion Ho as [|? ? Hoe Hor]; subst. inversion Hb as [|? ? Hbe Hbr]; subst.
+    inversion Hinv as [|? ? Hie Hir]; subst.
+    destruct (check_run _ _ _ _ _ _ _ _ Hc Hg Hte Hoe Hbe Hie) as (G1 & K1 & T1 & F1 & _).
+    destruct (check_inv _ _ _ _ _ _ _ Hc Hie) as (Hev1 & _).
+    destruct (IH E' st1 st2 r1 b2 Hs G1) as (G2 & K2 & T2 & F2); try assumption.
+    { eapply Forall2_tracks_mono; eassumption. }
+    { eapply Forall_impl; [|exact Hir]. intros x Hx. eapply eq_inv_evolves; eassumption. }
+    split; [exact G2|]. split; [eapply kmono_trans; eassumption|].
+    split; [constructor; [eapply tracks_mono; eassumption|exact T2]|].
+    intro Hbf. apply orb_false_iff in Hbf. destruct Hbf as (Hb1 & Hb2).
+    destruct (F1 Hb1) as (S1 & N1). destruct (F2 Hb2) as (S2 & N2).
+    split; [eapply same_kip_trans; eassumption|]. constructor; [|exact N2].
+    intros Hu p Hf. apply (N1 Hu p). eapply fireable_same_kip; [apply same_kip_sym; exact S2|exact Hf].
+Qed.
+
+Lemma loop_run : forall s ivs0 E fuel st es st' es',
+  loop s fuel 0 false st es = Some (st', es') ->
+  grows ivs0 (cs_ivs st) -> Forall2 (tracks (cs_ivs st)) E es ->
+  Forall (ode_ok ivs0) E -> Forall (bounded (length ivs0)) E -> Forall (eq_inv (cs_ivs st)) es ->
+  grows ivs0 (cs_ivs st') /\ kmono (cs_ivs st) (cs_ivs st') /\ Forall2 (tracks (cs_ivs st')) E es' /\
+  Forall2 (stuck_pair s (cs_ivs st')) E es'.
+Proof.
+  intros s ivs0 E fuel. induction fuel as [|f IH]; intros st es st' es' H Hg Ht Ho Hb Hinv; [discriminate|].
+  cbn [loop] in H. destruct (sweep s false st es) as [[st1 es1] rel] eqn:Hs.
+  destruct (sweep_run _ _ _ _ _ _ _ _ Hs Hg Ht Ho Hb Hinv) as (G1 & K1 & T1 & F1).
+  destruct (sweep_inv _ _ _ _ _ _ _ Hs Hinv) as (_ & I1).
+  destruct rel.
+  - destruct (IH _ _ _ _ H G1 T1 Ho Hb I1) as (G2 & K2 & T2 & S2).
+    split; [exact G2|]. split; [eapply kmono_trans; eassumption|]. split; assumption.
+  - cbn in H. inversion H; subst. destruct (F1 eq_refl) as (_ & S1). split; [exact G1|]. split; [exact K1|]. split; assumption.
+Qed.
+
+(* a target state that already knows whatever any run can still learn *)
+Definition closed_for (s : system) (ivs0 T : list ivar) (E : list ieq) : Prop :=
+  forall e0 ivs p, In e0 E -> grows ivs0 ivs -> kmono ivs T -> fireable s ivs e0 p ->
+    is_known T p = true /\ has_index (geti T p) = true.
+
+Lemma Forall2_In_l : forall {A B} (R : A -> B -> Prop) l l' x, Forall2 R l l' -> In x l -> exists y, In y l' /\ R x y.
+Proof.
+  intros A B R l l' x H. induction H as [|a b l l' Hab Hl IH]; intro Hx; [destruct Hx|].
+  destruct Hx as [<-|Hx]; [exists b; split; [left; reflexivity|exact Hab]|].
+  destruct (IH Hx) as (y & Hy & Hr). exists y. split; [right; exact Hy|exact Hr].
+Qed.
+
+Lemma sweep_incl : forall s ivs0 T E0 E es st st' es' b,
+  sweep s false st es = (st', es', b) -> closed_for s ivs0 T E0 -> incl E E0 ->
+  grows ivs0 (cs_ivs st) -> Forall2 (tracks (cs_ivs st)) E es ->
+  Forall (ode_ok ivs0) E -> Forall (bounded (length ivs0)) E -> Forall (eq_inv (cs_ivs st)) es ->
+  kmono (cs_ivs st) T -> kmono (cs_ivs st') T.
+Proof.
+  intros s ivs0 T E0 E es. revert E. induction es as [|e r IH]; intros E st st' es' b H Hcl Hincl Hg Ht Ho Hb Hinv Hk; cbn in H.
+  - inversion H; subst. exact Hk.
+  - destruct (check s false st e) as [[st1 e1] b1] eqn:Hc.
+    destruct (sweep s false st1 r) as [[st2 r1] b2] eqn:Hs.
+    inversion H; subst st' es' b. clear H.
+    inversion Ht as [|e0 ? E' ? Hte Htr]; subst. inversion Ho as [|? ? Hoe Hor]; subst. inversion Hb as [|? ? Hbe Hbr]; subst.
+    inversion Hinv as [|? ? Hie Hir]; subst.
+    destruct (check_run _ _ _ _ _ _ _ _ Hc Hg Hte Hoe Hbe Hie) as (G1 & K1 & T1 & F1 & F2).
+    destruct (check_inv _ _ _ _ _ _ _ Hc Hie) as (Hev1 & _).
+    assert (Hk1 : kmono (cs_ivs st1) T).
+    { destruct b1.
+      - destruct (F2 eq_refl) as (p & Hf & Hp & Hfr & _).
+        destruct (Hcl e0 (cs_ivs st) p (Hincl e0 (or_introl eq_refl)) Hg Hk Hf) as (C1 & C2).
+        intro x. destruct (Nat.eq_dec x p) as [->|Hd]; [split; intros _; assumption|].
+        unfold is_known. rewrite (Hfr x Hd). apply Hk.
+      - destruct (F1 eq_refl) as (S1 & _). intro x. destruct (S1 x) as (A1 & A2 & _). rewrite A1, A2. apply Hk. }
+    eapply (IH E' st1 st2 r1 b2 Hs Hcl); try eassumption.
+    + intros x Hx. apply Hincl. right. exact Hx.
+    + eapply Forall2_tracks_mono; eassumption.
+    + eapply Forall_impl; [|exact Hir]. intros x Hx. eapply eq_inv_evolves; eassumption.
+Qed.
+
+Lemma loop_incl : forall s ivs0 T E fuel st es st' es',
+  loop s fuel 0 false st es = Some (st', es') -> closed_for s ivs0 T E ->
+  grows ivs0 (cs_ivs st) -> Forall2 (tracks (cs_ivs st)) E es ->
+  Forall (ode_ok ivs0) E -> Forall (bounded (length ivs0)) E -> Forall (eq_inv (cs_ivs st)) es ->
+  kmono (cs_ivs st) T -> kmono (cs_ivs st') T.
+Proof.
+  intros s ivs0 T E fuel. induction fuel as [|f IH]; intros st es st' es' H Hcl Hg Ht Ho Hb Hinv Hk; [discriminate|].
+  cbn [loop] in H. destruct (sweep s false st es) as [[st1 es1] rel] eqn:Hs.
+  pose proof (sweep_incl _ _ _ _ _ _ _ _ _ _ Hs Hcl (fun x Hx => Hx) Hg Ht Ho Hb Hinv Hk) as K1.
+  destruct (sweep_run _ _ _ _ _ _ _ _ Hs Hg Ht Ho Hb Hinv) as (G1 & _ & T1 & _).
+  destruct (sweep_inv _ _ _ _ _ _ _ Hs Hinv) as (_ & I1).
+  destruct rel; [eapply IH; eassumption|]. cbn in H. inversion H; subst. exact K1.
+Qed.
+
+Lemma Forall2_and : forall {A B} (R S : A -> B -> Prop) l l', Forall2 R l l' -> Forall2 S l l' -> Forall2 (fun x y => R x y /\ S x y) l l'.
+Proof. intros A B R S l l' H. induction H; intro K; inversion K; subst; constructor; auto. Qed.
+
+Lemma app_eq_single : forall {A} (a b : list A) p, a ++ b = [p] -> (a = [p] /\ b = []) \/ (a = [] /\ b = [p]).
+Proof.
+  intros A a b p H. destruct a as [|x r]; cbn in H; [right; auto|].
+  inversion H; subst. destruct r; [|discriminate]. cbn in *. subst. left. auto.
+Qed.
+
+Lemma filter_sub_single : forall (f : nat -> bool) (g : nat -> bool) l p,
+  (forall x, f x = true -> g x = true) -> filter g l = [p] -> filter f l = (if f p then [p] else []).
+Proof. intros f g l p H E. rewrite <- (filter_filter_mono f g l H), E. cbn. destruct (f p); reflexivity. Qed.
+
+Lemma filter_sub_nil : forall (f : nat -> bool) (g : nat -> bool) l,
+  (forall x, f x = true -> g x = true) -> filter g l = [] -> filter f l = [].
+Proof. intros f g l H E. rewrite <- (filter_filter_mono f g l H), E. reflexivity. Qed.
+
+(** The state in which a run of the first pass stops already knows everything that any other run can learn. *)
+Lemma final_closed : forall s ivs0 A EA esA,
+  grows ivs0 A -> Forall2 (tracks A) EA esA -> Forall2 (stuck_pair s A) EA esA ->
+  Forall (ode_ok ivs0) EA -> Forall (bounded (length ivs0)) EA ->
+  closed_for s ivs0 A EA.
+Proof.
+  intros s ivs0 A EA esA HgA HtA HsA Ho Hb e0 ivs p Hin Hg Hk (Fl & Fs & Fp).
+  destruct (Forall2_In_l _ _ _ _ (Forall2_and _ _ _ _ HtA HsA) Hin) as (eA & _ & HtrA & HstA).
+  rewrite Forall_forall in Ho, Hb. specialize (Ho e0 Hin). destruct (Hb e0 Hin) as (Bv & Bo).
+  rewrite Forall_forall in Bv, Bo.
+  assert (Hpin : In p (filter (nk ivs) (ie_vars e0) ++ filter (ni ivs) (ie_odes e0))) by (rewrite Fl; left; reflexivity).
+  assert (Hp0 : p < length ivs0).
+  { apply in_app_iff in Hpin. destruct Hpin as [H|H]; apply filter_In in H; [apply Bv|apply Bo]; apply H. }
+  assert (Hv0 : geti ivs p = geti ivs0 p) by (apply vrel_pend; [apply Hg; exact Hp0|exact Fp]).
+  pose proof (proj2 HgA p Hp0) as HrA.
+  (* unknown or unindexed in A means untouched in A *)
+  assert (HpendA : pend (geti A p) = true -> geti A p = geti ivs p).
+  { intro K. rewrite Hv0. apply vrel_pend; assumption. }
+  assert (Hnk : forall x, nk A x = true -> nk ivs x = true) by (intro x; apply nk_mono; exact Hk).
+  assert (Hni : forall x, ni A x = true -> ni ivs x = true) by (intro x; apply ni_mono; exact Hk).
+  destruct (app_eq_single _ _ _ Fl) as [(Ev & Eo)|(Ev & Eo)].
+  - (* p is a plain variable of the equation, unknown in the run *)
+    assert (Hin_v : In p (ie_vars e0)).
+    { assert (K : In p (filter (nk ivs) (ie_vars e0))) by (rewrite Ev; left; reflexivity). apply filter_In in K. apply K. }
+    assert (Hty0 : iv_type (geti ivs0 p) = VUnknown).
+    { assert (K : In p (filter (nk ivs) (ie_vars e0))) by (rewrite Ev; left; reflexivity). apply filter_In in K. destruct K as (_ & K).
+      unfold nk, is_known in K. rewrite negb_involutive in K. apply vtype_eqb_eq in K. rewrite <- Hv0. exact K. }
+    assert (Hknown : is_known A p = true).
+    { destruct (is_known A p) eqn:Ek; [reflexivity|exfalso].
+      destruct (etype_eqb (ie_type eA) EUnknown) eqn:Et.
+      - apply etype_eqb_eq in Et. apply (HstA Et p). unfold fireable.
+        assert (Hnkp : nk A p = true) by (unfold nk; rewrite Ek; reflexivity).
+        rewrite (filter_sub_single (nk A) (nk ivs) _ p Hnk Ev), Hnkp, (filter_sub_nil (ni A) (ni ivs) _ Hni Eo). cbn [app].
+        assert (Hpd : pend (geti A p) = true).
+        { unfold pend. unfold is_known in Ek. apply negb_false_iff in Ek. apply vtype_eqb_eq in Ek. rewrite Ek. reflexivity. }
+        rewrite (HpendA Hpd). split; [reflexivity|]. split; assumption.
+      - destruct HtrA as (_ & _ & _ & _ & _ & Hd). destruct Hd as (D1 & _).
+        { intro K. rewrite K in Et. discriminate. }
+        rewrite (D1 p Hin_v) in Ek. discriminate. }
+    split; [exact Hknown|]. apply is_known_type in Hknown. eapply vrel_typed_indexed; eassumption.
+  - (* p is a state of the equation, without index in the run *)
+    assert (Hin_o : In p (ie_odes e0)).
+    { assert (K : In p (filter (ni ivs) (ie_odes e0))) by (rewrite Eo; left; reflexivity). apply filter_In in K. apply K. }
+    assert (Hst0 : iv_type (geti ivs0 p) = VState /\ has_index (geti ivs0 p) = false).
+    { specialize (Ho p Hin_o). rewrite <- Hv0. unfold pend in Fp.
+      destruct (iv_type (geti ivs p)) eqn:Et; try discriminate.
+      - rewrite <- Hv0, Et in Ho. discriminate.
+      - split; [reflexivity|]. apply negb_true_iff in Fp. exact Fp. }
+    destruct Hst0 as (Hty0 & Hix0).
+    assert (Hindexed : has_index (geti A p) = true).
+    { destruct (has_index (geti A p)) eqn:Ei; [reflexivity|exfalso].
+      assert (HtyA : iv_type (geti A p) = VState).
+      { destruct HrA as [E|[(_ & I & _)|(P & _ & _)]]; [rewrite E; exact Hty0|congruence|].
+        unfold pend in P. rewrite Hty0, Hix0 in P. discriminate. }
+      destruct (etype_eqb (ie_type eA) EUnknown) eqn:Et.
+      - apply etype_eqb_eq in Et. apply (HstA Et p). unfold fireable.
+        assert (Hnip : ni A p = true) by (unfold ni; rewrite is_known_ode_has_index, Ei; reflexivity).
+        rewrite (filter_sub_nil (nk A) (nk ivs) _ Hnk Ev), (filter_sub_single (ni A) (ni ivs) _ p Hni Eo), Hnip. cbn [app].
+        assert (Hpd : pend (geti A p) = true) by (unfold pend; rewrite HtyA, Ei; reflexivity).
+        rewrite (HpendA Hpd). split; [reflexivity|]. split; assumption.
+      - destruct HtrA as (_ & _ & _ & _ & _ & Hd). destruct Hd as (_ & D2).
+        { intro K. rewrite K in Et. discriminate. }
+        rewrite (D2 p Hin_o) in Ei. discriminate. }
+    split; [|exact Hindexed]. apply is_known_type. eapply vrel_known; [exact HrA|]. rewrite Hty0. discriminate.
+Qed.
+
+Lemma grows_refl : forall a, grows a a.
+Proof. intro a. split; [reflexivity|]. intros p _. left. reflexivity. Qed.
+
+Lemma Forall2_tracks_self : forall ivs es, Forall (fun e => ie_type e = EUnknown) es -> Forall2 (tracks ivs) es es.
+Proof. intros ivs es H. induction H; constructor; [apply tracks_self; assumption|assumption]. Qed.
+
+Lemma one_way : forall s ivs0 es es' fuel fuel' a b stA esA stB esB,
+  Permutation es es' ->
+  Forall (fun e => ie_type e = EUnknown) es -> Forall (ode_ok ivs0) es -> Forall (eq_inv ivs0) es ->
+  cs_ivs a = ivs0 -> cs_ivs b = ivs0 ->
+  loop s fuel 0 false a es = Some (stA, esA) ->
+  loop s fuel' 0 false b es' = Some (stB, esB) ->
+  kmono (cs_ivs stB) (cs_ivs stA).
+Proof.
+  intros s ivs0 es es' fuel fuel' a b stA esA stB esB Hperm Hu Ho Hi Ha Hb HA HB.
+  assert (Hbd : forall l, Forall (eq_inv ivs0) l -> Forall (bounded (length ivs0)) l).
+  { intros l H. eapply Forall_impl; [|exact H]. intros e (B1 & B2 & _). split; assumption. }
+  assert (Hperm_F : forall (P : ieq -> Prop), Forall P es -> Forall P es').
+  { intros P H. rewrite Forall_forall in *. intros x Hx. apply H. eapply Permutation_in; [apply Permutation_sym; exact Hperm|exact Hx]. }
+  destruct (loop_run s ivs0 es _ _ _ _ _ HA) as (GA & _ & TA & SA).
+  { rewrite Ha. apply grows_refl. }
+  { rewrite Ha. apply Forall2_tracks_self. exact Hu. }
+  { exact Ho. } { apply Hbd. exact Hi. } { rewrite Ha. exact Hi. }
+  pose proof (final_closed _ _ _ _ _ GA TA SA Ho (Hbd _ Hi)) as Hcl.
+  assert (Hcl' : closed_for s ivs0 (cs_ivs stA) es').
+  { intros e0 ivs p Hin. apply Hcl. eapply Permutation_in; [apply Permutation_sym; exact Hperm|exact Hin]. }
+  eapply (loop_incl s ivs0 (cs_ivs stA) es' _ _ _ _ _ HB Hcl').
+  - rewrite Hb. apply grows_refl.
+  - rewrite Hb. apply Forall2_tracks_self. apply Hperm_F. exact Hu.
+  - apply Hperm_F. exact Ho.
+  - apply Hbd. apply Hperm_F. exact Hi.
+  - rewrite Hb. apply Hperm_F. exact Hi.
+  - rewrite Hb. destruct GA as (LA & GA). intro x.
+    destruct (Nat.lt_ge_cases x (length ivs0)) as [Lx|Lx].
+    + specialize (GA x Lx). split; intro K.
+      * apply is_known_type. eapply vrel_known; [exact GA|]. apply is_known_type. exact K.
+      * eapply vrel_index; eassumption.
+    + unfold is_known, geti. rewrite !nth_overflow by lia. auto.
+Qed.
+
+(** pass1_confluent: whatever the order in which the internal equations are swept, the first pass ends with the
+    same variables known (typed) and the same variables indexed. *)
+Theorem pass1_confluent : forall s ivs0 es es' fuel fuel' a b stA esA stB esB,
+  Permutation es es' ->
+  Forall (fun e => ie_type e = EUnknown) es -> Forall (ode_ok ivs0) es -> Forall (eq_inv ivs0) es ->
+  cs_ivs a = ivs0 -> cs_ivs b = ivs0 ->
+  loop s fuel 0 false a es = Some (stA, esA) ->
+  loop s fuel' 0 false b es' = Some (stB, esB) ->
+  forall p, is_known (cs_ivs stA) p = is_known (cs_ivs stB) p /\
+            has_index (geti (cs_ivs stA) p) = has_index (geti (cs_ivs stB) p).
+Proof.
+  intros s ivs0 es es' fuel fuel' a b stA esA stB esB Hperm Hu Ho Hi Ha Hb HA HB p.
+  pose proof (one_way _ _ _ _ _ _ _ _ _ _ _ _ Hperm Hu Ho Hi Ha Hb HA HB) as K1.
+  assert (Hperm_F : forall (P : ieq -> Prop), Forall P es -> Forall P es').
+  { intros P H. rewrite Forall_forall in *. intros x Hx. apply H. eapply Permutation_in; [apply Permutation_sym; exact Hperm|exact Hx]. }
+  pose proof (one_way _ _ _ _ _ _ _ _ _ _ _ _ (Permutation_sym Hperm) (Hperm_F _ Hu) (Hperm_F _ Ho) (Hperm_F _ Hi) Hb Ha HB HA) as K2.
+  destruct (K1 p) as (A1 & A2). destruct (K2 p) as (B1 & B2).
+  split.
+  - destruct (is_known (cs_ivs stA) p) eqn:EA, (is_known (cs_ivs stB) p) eqn:EB; try reflexivity.
+    + specialize (B1 eq_refl). discriminate.
+    + specialize (A1 eq_refl). discriminate.
+  - destruct (has_index (geti (cs_ivs stA) p)) eqn:EA, (has_index (geti (cs_ivs stB) p)) eqn:EB; try reflexivity.
+    + specialize (B2 eq_refl). discriminate.
+    + specialize (A2 eq_refl). discriminate.
+Qed.
+
+(** The hypotheses hold for the state the analyser is in when the loop starts. *)
+Theorem pass1_confluent_analysis : forall s ivs0 es0 es' fuel fuel' stA esA stB esB,
+  build s = Some (ivs0, es0) -> Permutation es0 es' ->
+  let ivs := vs_ivs (analyse_asts s ivs0 es0) in
+  loop s fuel 0 false (mkCs ivs 0 0) es0 = Some (stA, esA) ->
+  loop s fuel' 0 false (mkCs ivs 0 0) es' = Some (stB, esB) ->
+  forall p, is_known (cs_ivs stA) p = is_known (cs_ivs stB) p /\
+            has_index (geti (cs_ivs stA) p) = has_index (geti (cs_ivs stB) p).
+Proof.
+  intros s ivs0 es0 es' fuel fuel' stA esA stB esB Hb Hperm ivs HA HB.
+  destruct (own_inv_initial _ _ _ Hb) as ([U O X W B] & _). fold ivs in U, O, X, W, B.
+  destruct (build_spec _ _ _ Hb) as (_ & B2 & _).
+  eapply (pass1_confluent s ivs es0 es'); try eassumption; try reflexivity.
+  - eapply Forall_impl; [|exact B2]. intros e (_ & _ & _ & _ & _ & T). exact T.
+  - rewrite Forall_forall. intros e He p Hp. apply (O e p He Hp).
 Qed.
